@@ -243,6 +243,17 @@ func (g *Gen) frameObligations(fc *FuncContract, exit *State, params map[string]
 		if strings.HasPrefix(k, "CHN|") || strings.HasPrefix(k, "CHD|") {
 			continue // channel traces are ghost observations, not memory
 		}
+		// every write went to an object allocated by this very function: nothing the caller can see changed
+		onlyFresh := len(g.allWrites[k]) > 0
+		for _, r := range g.allWrites[k] {
+			if r.whole || !strings.HasPrefix(r.obj, "obj!") {
+				onlyFresh = false
+				break
+			}
+		}
+		if onlyFresh {
+			continue
+		}
 		whole := false
 		var objs []string
 		for _, r := range allowed[k] {
@@ -262,6 +273,9 @@ func (g *Gen) frameObligations(fc *FuncContract, exit *State, params map[string]
 		}
 		o := g.fresh("fo", sInt)
 		hyp := []string{"(<= 1 " + o + ")", "(<= " + o + " alloc!0)"}
+		if strings.HasPrefix(k, "G|") {
+			hyp = nil // ghost maps are indexed by arbitrary keys, not by object ids
+		}
 		for _, a := range objs {
 			hyp = append(hyp, "(not (= "+o+" "+a+"))")
 		}
